@@ -104,6 +104,12 @@ theorem invB_read {cfg s s'} {st : Stanza} (hA : InvA cfg s) (h : InvB cfg s) (h
          constructor <;> simp only [matchesAt, matchesReq] at * <;> grind)
   · simp at hs
 
+theorem invB_readErr {cfg s s'} {i : Nat} (h : InvB cfg s) (hs : step cfg s (.readErr i) = some s') : InvB cfg s' := by
+  obtain ⟨h1, h2, h3, h4, h5, h6, h7⟩ := h
+  simp only [step] at hs
+  split at hs <;> (try split at hs) <;> (try split at hs) <;> (try simp at hs) <;> (try subst hs) <;>
+    (try (constructor <;> simp only [matchesAt, matchesReq, upd] at * <;> grind))
+
 theorem invB_closeOut {cfg s s'} (h : InvB cfg s) (hs : step cfg s .closeOut = some s') : InvB cfg s' := by
   obtain ⟨h1, h2, h3, h4, h5, h6, h7⟩ := h
   simp only [step] at hs
@@ -128,6 +134,7 @@ theorem invB_step {cfg s a s'} (hA : InvA cfg s) (h : InvB cfg s) (hs : step cfg
   | read st => exact invB_read hA h hs
   | abandon => exact invB_abandon h hs
   | closeOut => exact invB_closeOut h hs
+  | readErr i => exact invB_readErr h hs
 
 theorem invA_init (cfg : Cfg) : InvA cfg init := by
   intro x j h; simp [init] at h
